@@ -9,6 +9,7 @@ import Proofs.ExtractPkgRef
 import Proofs.ExtractAcyclic
 import Proofs.ExtractShapeTie
 import Proofs.ExtractShapeAssoc
+import Proofs.ExtractShapeLinked
 import Proofs.ExtractShapeScope
 import Proofs.ExtractShapeClass
 import Proofs.ExtractShapeAttrs
@@ -1285,8 +1286,8 @@ end PyxProps.C14
     * every relationship dispatched to mk_simple_association (formalised, unformalised = second participant refers, and the
       rows without the two ends: AttributeError) — TOTAL, every ending;
     * mk_derived_association (nothing defined) and no R206 subtype row (TypeError) — TOTAL;
-    * mk_linked_association when its three ends exist and its classes / O_REF rows resolve (`_partial`: the AttributeError
-      endings of a linked relationship and mk_subsuper_association are covered by `association_ends_as_in_source` only).
+    * mk_linked_association — TOTAL, every ending (`linked_association_as_in_source`, Proofs/ExtractShapeLinked.lean; `_partial`
+      is the case whose three ends exist and resolve); mk_subsuper_association is covered by `association_ends_as_in_source` only.
   ========================================================================================================== -/
 namespace PyxProps.C14
 open Pyx.Extract Pyx.XShape Pyx.Gen.ExtractShape
@@ -1332,8 +1333,7 @@ theorem derived_and_untyped_association_as_in_source (d : ClassDiagram) (numb : 
 /-- mk_association -> mk_linked_association with its nested _mk_assoc called twice ((R_AONE, R_AOTH) then (R_AOTH, R_AONE)): the
     link class is the source of both, the OTHER side's Mult / Cond are the source's, target never many / conditional, phrases
     side1 / side2 on a reflexive relationship — for every diagram and rows whose three ends exist and resolve.
-    FULL STATEMENT (not proved: the AttributeError endings): ∀ d numb w, w.dispatch = .linked → expected numb (mkAssociation d w) =
-    iMkAssociation defs d numb w -/
+    The FULL STATEMENT (the AttributeError endings included) is `linked_association_as_in_source` below. -/
 theorem linked_association_as_in_source_partial (d : ClassDiagram) (numb : Nat) (w : RelRows) (o t : End) (l : Nat)
     (hd : w.dispatch = .linked) (hone : w.aone = some o) (hoth : w.aoth = some t) (hassr : w.assr = some l)
     (hr : resolvedRel d (RelKind.linked o t l w.refsOne w.refsOth).asRel = true) :
@@ -1341,6 +1341,32 @@ theorem linked_association_as_in_source_partial (d : ClassDiagram) (numb : Nat) 
   rw [dispatch_eq, hd]
   simp only [mkAssociation, hd, hone, hoth, hassr]
   rw [linked_resolved d numb w o t l hone hoth hassr hr]
+
+/-- mk_association -> mk_linked_association, for EVERY diagram, number and rows of a relationship with an R_ASSOC row, every ending
+    included (Proofs/ExtractShapeLinked.lean): next to the two associations of `_partial`, AttributeError exactly when an end row
+    (R_AONE / R_AOTH / R_ASSR), a class or an attribute of an O_REF row is missing.  In the order the IR evaluates: without R_AONE
+    `side1.Obj_ID` of the first `_mk_assoc` raises (`_get_related_attributes(r_rgo, None)` has returned two empty lists); without
+    R_ASSR `r_rgo.OIR_ID` raises in the filter of `_get_related_attributes` when an O_REF hangs on R_AONE's R_RTO, else
+    `side2.Obj_ID` (no R_AOTH) or `source_o_obj.Key_Lett`; with R_ASSR an unresolved O_REF raises `o_attr.Name`, then
+    `side2.Obj_ID`, `source_o_obj.Key_Lett` (link class), `target_o_obj.Key_Lett` (side1's class), and the same in the second
+    `_mk_assoc` — the model reports AttributeError for each of them (the first `define_association` already made is lost with
+    the exception in both) -/
+theorem linked_association_as_in_source (d : ClassDiagram) (numb : Nat) (w : RelRows) (hd : w.dispatch = .linked) :
+    expected numb (mkAssociation d w) = iMkAssociation defs d numb w := by
+  rw [dispatch_eq, hd]
+  simp only [mkAssociation, hd]
+  cases hone : w.aone with
+  | none => rw [linked_degenerate d numb w (.inl hone)]; rfl
+  | some o =>
+    cases hoth : w.aoth with
+    | none => rw [linked_degenerate d numb w (.inr (.inl hoth))]; rfl
+    | some t =>
+      cases hassr : w.assr with
+      | none => rw [linked_degenerate d numb w (.inr (.inr hassr))]; rfl
+      | some l =>
+        cases hr : resolvedRel d (RelKind.linked o t l w.refsOne w.refsOth).asRel with
+        | true => rw [linked_resolved d numb w o t l hone hoth hassr hr]
+        | false => rw [linked_unresolved d numb w o t l hone hoth hassr hr]; simp [kindOutcome, hr, expected]
 
 /-- the theorems applied: the formalised B -> A relationship, the unformalised reflexive one (AttributeError-free), a simple
     relationship without participants (AttributeError) and the linked one of `tieLinked` -/
@@ -1355,6 +1381,23 @@ example : iMkAssociation defs tieD 7 { simp := true } = .error .attributeError :
 example : iMkAssociation defs tieD 7 (tieLinked true false false true) =
     expected 7 (mkAssociation tieD (tieLinked true false false true)) :=
   (linked_association_as_in_source_partial tieD 7 _ _ _ _ (by decide) rfl rfl rfl (by decide)).symm
+/-- non-vacuity of the error endings: a linked relationship without its R_ASSR row, one without R_AONE, one whose link class
+    does not exist, one whose second O_REF list names a missing attribute (the first `_mk_assoc` has already defined) -/
+example : iMkAssociation defs tieD 7 { tieLinked true false false true with assr := none } = .error .attributeError :=
+  (linked_association_as_in_source tieD 7 { tieLinked true false false true with assr := none } (by decide)).symm
+example : iMkAssociation defs tieD 7 { tieLinked true false false true with aone := none } = .error .attributeError :=
+  (linked_association_as_in_source tieD 7 { tieLinked true false false true with aone := none } (by decide)).symm
+example : iMkAssociation defs tieD 7 { tieLinked true false false true with assr := some 9, refsOne := [], refsOth := [] } =
+    .error .attributeError :=
+  (linked_association_as_in_source tieD 7
+    { tieLinked true false false true with assr := some 9, refsOne := [], refsOth := [] } (by decide)).symm
+example : iMkAssociation defs tieD 7 { tieLinked true false false true with refsOth := [{ rattr := 1, iattr := 5 }] } =
+    .error .attributeError :=
+  (linked_association_as_in_source tieD 7
+    { tieLinked true false false true with refsOth := [{ rattr := 1, iattr := 5 }] } (by decide)).symm
+/-- … and the kernel evaluates the interpretation of the IR to the same ending -/
+example : sameR (iMkAssociation defs tieD 7 { tieLinked true false false true with assr := none }) (.error .attributeError) = true := by
+  decide +kernel
 
 end PyxProps.C14
 
